@@ -151,9 +151,139 @@ def r21b(ctx, P):
                "make_snippet no longer delegates to highlight_fragments", "%s:%s" % (ms.file, ms.line))
 
 
+def r21c(ctx, P):
+    rid = "R21.c"
+    import re
+    ctx.rule(rid, "WINDOW CONTAINS ITS MATCH (abstract interpretation relative to the match, all definitions joined): in "
+                  "highlight_fragments the lower bound of the fragment slice stays `<= Match::start()` — it starts from "
+                  "Match::start(), may only be decreased (saturating_sub / -), min'ed, or advanced by 1 inside the "
+                  "`!is_char_boundary(bound)` loop (the match start is a boundary, so the loop cannot pass it); the upper bound stays "
+                  "`lower + fragment_size` capped by text.len() and moved back inside the `!is_char_boundary` loop only. Any other "
+                  "definition (a max with another position, a value derived from the previous fragment or from the other bound) can "
+                  "put the window past the match: the fragment then has no tagged match, or is empty")
+    f = P.fn(HL + "highlight_fragments")
+    if not ctx.anchor(rid, f, "highlight_fragments"):
+        return
+    sl = Slice(f, through_all_calls=True)
+    sl0 = Slice(f)
+    # the slice bounds
+    bounds = None
+    for b, t in f.calls():
+        cal = callee_of(t)
+        if cal == "core::str::<impl str>::get" or (cal.endswith("::index") and "str" in cal):
+            for x in sl0.sources(t["args"][1]):
+                if x[0] == "agg" and (x[3].get("adt") or "").endswith("ops::range::Range"):
+                    bounds = (b, x[3]["ops"][0], x[3]["ops"][1])
+    if not ctx.anchor(rid, bounds, "text.get(lower..upper) in highlight_fragments"):
+        return
+    gb, lo_op, hi_op = bounds
+    lo, hi = _named_root(f, lo_op), _named_root(f, hi_op)
+    if not (ctx.anchor(rid, lo, "named lower bound") and ctx.anchor(rid, hi, "named upper bound")):
+        return
+    defs = f.defs()
+
+    def in_boundary_loop(d, var):
+        """the definition is controlled by the `false` (not a boundary) outcome of is_char_boundary(var)"""
+        for (a, succ) in f.control_deps_transitive(d["b"]):
+            t = f.blocks[a]["term"]
+            if t["k"] != "switch":
+                continue
+            for x in sl0.sources(t["on"]):
+                if x[0] == "call" and callee_of(x[2]) == "core::str::<impl str>::is_char_boundary" and _named_root(f, x[2]["args"][1]) == var:
+                    return True
+        return False
+
+    def classify(var, kind):
+        """kind 'lo': every def keeps var <= Match::start ; kind 'hi': every def keeps var = window end"""
+        bad = []
+        for d in defs.get(var, []):
+            if d.get("partial"):
+                continue
+            site = Site(f, d["b"], d.get("i", TERM))
+            if d["k"] == "call":
+                cal = callee_of(d["t"])
+                args = d["t"]["args"]
+                srcs = [sl.sources(a) for a in args]
+                calls = [[callee_of(x[2]) for x in s_ if x[0] == "call"] for s_ in srcs]
+                if kind == "lo":
+                    from_ms = any(c.endswith("Match::<'h>::start") for c in calls[0]) if calls else False
+                    if re.search(r"::(saturating_sub|wrapping_sub|checked_sub)$", cal) and from_ms:
+                        continue
+                    if cal.endswith(("Match::<'h>::start",)):
+                        continue
+                    if re.search(r"::min$", cal) and any(any(c.endswith("Match::<'h>::start") for c in cs) for cs in calls):
+                        continue
+                    bad.append((site, "`%s` (a %s)" % (f.locals[var].get("name"), cal.rsplit("::", 1)[1])))
+                else:
+                    if re.search(r"::min$", cal) and len(args) == 2:
+                        a_len = any(c.endswith("::len") for c in calls[0])
+                        b_len = any(c.endswith("::len") for c in calls[1])
+                        other = srcs[1] if a_len else srcs[0]
+                        win = (lo in sl.locals(args[1] if a_len else args[0])) and "fragment_size" in sl.fields(args[1] if a_len else args[0]) and \
+                            any(x[0] == "call" and re.search(r"::(saturating_add|checked_add|wrapping_add)$", callee_of(x[2])) or
+                                (x[0] == "binop" and x[1] in ("Add", "AddWithOverflow")) for x in other)
+                        if (a_len or b_len) and win:
+                            continue
+                    if re.search(r"::(saturating_add|checked_add|wrapping_add)$", cal) and lo in sl.locals(args[0]) and "fragment_size" in sl.fields(args[1]):
+                        continue
+                    bad.append((site, "`%s` (a %s)" % (f.locals[var].get("name"), cal.rsplit("::", 1)[1])))
+                continue
+            rv = d["rv"]
+            if rv["k"] in ("use", "cast"):
+                src = op_local(rv["a"])
+                c = op_const(rv["a"])
+                # `x = move tmp.0` of a checked +1 / -1 written back inside the boundary loop
+                sd = [x for x in defs.get(src, [])] if src is not None else []
+                if src is not None and len(sd) == 1 and sd[0]["k"] == "assign" and sd[0]["rv"]["k"] == "binop":
+                    brv = sd[0]["rv"]
+                    one = (op_const(brv["b"]) or {}).get("int") == 1 and _named_root(f, brv["a"]) == var
+                    if one and brv["op"] in (("Add", "AddWithOverflow") if kind == "lo" else ("Sub", "SubWithOverflow")) and in_boundary_loop(d, var):
+                        continue
+                    if one and kind == "lo" and brv["op"] in ("Sub", "SubWithOverflow"):
+                        continue
+                # a plain copy of an accepted temporary
+                if src is not None and not f.locals[src].get("name"):
+                    inner = [x for x in defs.get(src, [])]
+                    if len(inner) == 1 and inner[0]["k"] == "call":
+                        # classify the temporary as if it were the variable
+                        saved = defs.get(var)
+                        tmp_bad = []
+                        dd = dict(inner[0])
+                        cal = callee_of(dd["t"])
+                        args = dd["t"]["args"]
+                        srcs = [sl.sources(a) for a in args]
+                        calls = [[callee_of(x[2]) for x in s_ if x[0] == "call"] for s_ in srcs]
+                        if kind == "lo" and (re.search(r"::(saturating_sub|wrapping_sub|checked_sub)$", cal) and calls and
+                                             any(c.endswith("Match::<'h>::start") for c in calls[0]) or cal.endswith("Match::<'h>::start")):
+                            continue
+                        if kind == "hi" and re.search(r"::min$", cal) and len(args) == 2:
+                            a_len = any(c.endswith("::len") for c in calls[0])
+                            b_len = any(c.endswith("::len") for c in calls[1])
+                            w = args[1] if a_len else args[0]
+                            if (a_len or b_len) and lo in sl.locals(w) and "fragment_size" in sl.fields(w):
+                                continue
+                        bad.append((site, "`%s` (from %s)" % (f.locals[var].get("name"), cal.rsplit("::", 1)[1])))
+                        continue
+                bad.append((site, "`%s` (an assignment)" % f.locals[var].get("name")))
+            else:
+                bad.append((site, "`%s` (a %s)" % (f.locals[var].get("name"), rv["k"])))
+        return bad
+    bad_lo = classify(lo, "lo")
+    bad_hi = classify(hi, "hi")
+    ctx.ob(rid, "%s:highlight_fragments:lower-bound-at-or-before-match" % rid, not bad_lo,
+           "the window starts at or before the match on every path" if not bad_lo else
+           "the definition of %s at %s can move the window start past the match start: the fragment has no tagged match or is empty"
+           % (bad_lo[0][1], bad_lo[0][0].loc()), bad_lo[0][0].loc() if bad_lo else Site(f, gb).loc())
+    ctx.ob(rid, "%s:highlight_fragments:upper-bound-is-window-end" % rid, not bad_hi,
+           "the window ends fragment_size behind its start (capped by the text, snapped back to a boundary)" if not bad_hi else
+           "the definition of %s at %s is not min(text.len(), start + fragment_size) or its boundary snap: the window can end before the "
+           "match does" % (bad_hi[0][1], bad_hi[0][0].loc()), bad_hi[0][0].loc() if bad_hi else Site(f, gb).loc())
+
+
 def run(ctx, progs):
     P = progs.get("default")
     r21a(ctx, P)
     r21b(ctx, P)
+    r21c(ctx, P)
     ctx.assumptions += ["regex Match::start/end are char boundaries of the searched text (regex crate contract)",
                         "fragment_size is measured in bytes"]
